@@ -21,3 +21,6 @@ pub mod hostile;
 pub mod e2e;
 pub mod c05;
 pub mod sweeps;
+pub mod txc;
+pub mod cut;
+pub mod txn;
